@@ -294,6 +294,31 @@ class Session:
         self.drivers.append({k: meta[k] for k in ("driver", "evaluations", "distinct_nontrivial", "rule", "exhaustive", "traces", "wall_s")}
                             | {"trace_spec": module + "/" + cfg, "extra": meta.get("extra")})
 
+    def apalache(self, module, obligations, timeout=300):
+        """Extra evidence only: inductive-invariant obligations discharged by Apalache (unbounded). A failure to
+        run is noted; a refuted obligation means the specification is wrong (exit 2), never a verdict about crd."""
+        d = self.spec_dir()
+        done = []
+        for init, inv, length in obligations:
+            cmd = ["apalache-mc", "check", "--init=" + init, "--inv=" + inv, "--length=%d" % length, "--out-dir=" + os.path.join(d, "_apalache"), module + ".tla"]
+            try:
+                p = subprocess.run(cmd, cwd=d, stdout=subprocess.PIPE, stderr=subprocess.STDOUT, timeout=timeout)
+            except (subprocess.TimeoutExpired, FileNotFoundError):
+                self.notes.append("apalache: %s %s=>%s not decided (timeout / not available)" % (module, init, inv))
+                continue
+            out = p.stdout.decode("utf-8", "replace")
+            if "EXITCODE: OK" in out:
+                done.append("%s: %s /\\ %d step(s) => %s" % (module, init, length, inv))
+            elif "EXITCODE: ERROR (12)" in out or "violat" in out.lower():
+                shutil.rmtree(d, ignore_errors=True)
+                raise Undecided("apalache refutes %s => %s in %s:\n%s" % (init, inv, module, out[-1500:]))
+            else:
+                self.notes.append("apalache: %s %s=>%s not decided" % (module, init, inv))
+        shutil.rmtree(d, ignore_errors=True)
+        if done:
+            self.notes.append("apalache discharged (unbounded): " + "; ".join(done))
+        return done
+
     def binding_selftest(self, meta, module, mutate, cfg=None, constants=None, expect=None):
         """Demonstrates that the trace spec is bound to what was recorded: corrupt one field of one recorded
         trace and require TLC to reject it. A spec that still accepts is vacuous -> the check cannot decide."""
